@@ -26,6 +26,13 @@ def check(tier):
     files = [f for f in files if os.path.getsize(f) < 12000]
     random.Random(core.seed()).shuffle(files)
     files = files[:NFILES[tier]]
+    # the notation snippets of harness/corpus (MACRO, CLASS / objects / sets, parameterization, constraints, CHOICE values, strings)
+    snip_dir = run.path("snippets")
+    os.makedirs(snip_dir, exist_ok=True)
+    for i, sn in enumerate(core.read_ndjson(os.path.join(core.ROOT, "harness", "corpus", "c08_snippets.ndjson"))):
+        f = os.path.join(snip_dir, f"snippet{i:02}.asn")
+        open(f, "w").write(sn["text"])
+        files.append(f)
     plans_p, sets_p, files_p, trace_p = run.path("plans.ndjson"), run.path("sets.ndjson"), run.path("files.txt"), run.path("trace.ndjson")
     core.write_ndjson(plans_p, plans)
     core.write_ndjson(sets_p, sets)
